@@ -92,9 +92,18 @@ class Context:
     def rule(self, fn, *args, **kw) -> None:
         """Run one rule group; an AnalysisError makes that group *undecided* without losing the others."""
         try:
+            for a in args:
+                why = getattr(a, "unreadable", None)
+                if why:
+                    raise AnalysisError(why)
             fn(self, *args, **kw)
         except AnalysisError as exc:
             self.undecided.append(f"{self.prop}/{getattr(fn, '__name__', 'rule')}: {exc}")
+        except (IndexError, KeyError, AttributeError, TypeError) as exc:
+            # a rule tripping over a shape it was not written for is an analysis failure of that rule group, not a verdict
+            import traceback
+            tb = traceback.extract_tb(exc.__traceback__)[-1]
+            self.undecided.append(f"{self.prop}/{getattr(fn, '__name__', 'rule')}: internal error {type(exc).__name__}: {exc} at {tb.filename.split('/')[-1]}:{tb.lineno}")
 
     def rule_any(self, *fns) -> None:
         """Alternative deciders of the same clause, most semantic first: the first one that decides (finishes without an AnalysisError) gives the verdict;
